@@ -53,6 +53,10 @@ CHECKS = {
             "Write-time ledger at the serial.write() / MQTT publish() boundary under the real limiter code on a virtual clock (time.perf_counter as seen by the transport follows it): arrival patterns = back-to-back single caller, bursts of 2..200 concurrent callers, steady streams above and below the limit, long idle then burst, bucket-drain then mixed sizes, random mixes, payloads 1..48 bytes, virtual minutes to hours. Offline oracles over every window of the ledger (suffix max/min sweeps): bits written <= 384 bit/s x window + 23 040 + bits of the frames pending at the window's start; any k+1 writes span >= (k-1) x 0.05 s; every accepted frame written exactly once, unaltered, in request order; MQTT publishes in any window <= 160 + 1.33/s x window + 1, no publish held for more than 1 s, a drop only when the last minute already saw about 80 publishes.",
             "A frame's bit size is the library's own deemed size; limiter constants are the shipped ones; tolerance 1 us / 1 bit; every scenario starts with a full bucket.",
             "write-boundary ledger + offline all-windows oracle (conservation / spacing / exactly-once / order) on a virtual clock", "§3 C11"),
+    "C12": ("fault_enumeration",
+            "Schema-convergence and monotonicity monitors: a real port Gateway with discovery enabled and no schema runs on a virtual clock (incl. the clock the discovery scheduler reads) against a simulated controller whose configuration is ground truth (random subsets of zones 00-0B, classes radiator / zone-valve / electric / mixing, sensors of every permitted type incl. the controller itself or none, 0-8 actuators, any subset of DHW sensor / hot-water valve / heating valve, appliance control none / relay / OpenTherm bridge). The controller announces itself during or after gateway start-up and answers 0005 / 000C / routine RQs with frames built as text. Fault plans over the first polling round: none; every request or reply of one role lost (0005, 000C actuators, sensors, DHW, appliance); 30-60 % of them lost at random; everything lost for the first hour. Judged: schema == configuration within 1 virtual hour (no faults) or 26 virtual hours (faults; the scheduler re-polls every 24 h); sampled every 15 virtual minutes, nothing learned ever disappears or changes and no device appears that the controller did not name.",
+            "Simulated controller written from the frame layouts; devices other than the controller never answer; compared items are those the statement lists; write-spacing task slowed to 250 ms; faults confined to the first virtual hour.",
+            "reference-configuration differential + monotonicity monitor under fault plans on a virtual clock", "§3 C12"),
     "C13": ("exploration",
             "Views-never-raise + engine-still-runs monitors on real gateways (file-sourced, fed through the real transport's receive function, and a port gateway on a fake serial port with sending enabled) over packet histories derived from the recorded logs by deletion, duplication, windowed reordering, splicing with other systems' / HVAC / binding logs and field mutation inside the schema regexes (extreme values), eavesdropping on/off: every public view of the gateway and of each device/system/zone/DHW is read every k-th packet; get_state() and _restore_cached_packets() (own snapshot, corrupted snapshot, restored twice, cancelled half-way) are invoked at seeded points and - returned or raised - must leave the engine as found (not paused, same handler, same read-only and discovery flags), a marker packet put on the wire afterwards must be handled end-to-end and a command must reach the serial port; after foreign traffic the known controller must still be a system, keep its zones and report a fresh zone temperature.",
             "Histories are re-timed to increasing unique timestamps; the marker is a 30C9 from a thermostat id no log uses; exceptions reaching the loop handler from deferred entity handlers are recorded, not judged; the port gateway runs with the library's own duty-cycle debug switch on (C11's subject).",
